@@ -15,7 +15,7 @@ def _c10_case(c):
 CONFIG = {
     "properties_file": "Properties/C10.v",
     "proof_files": ["Base/Prelude.v", "Proofs/OciCrash.v"],
-    "model_files": ["Model/OciCrash.v", "Model/OciCrashSpec.v"],
+    "model_files": ["Generated/GC10.v", "Model/OciCrash.v", "Model/OciCrashSpec.v"],
     "extract": "XC10.v",
     "ml_main": "c10_main.ml",
     "harness": "c10",
